@@ -1001,10 +1001,11 @@ def build_advi(arg):
         if arg.coalescent == 'piecewise-exponential':
             parameters.append('coalescent.growth')
     elif arg.birth_death is not None:
-        parameters.append("bdsk.R")
-        parameters.append("bdsk.delta")
-        parameters.append("bdsk.rho")
-        parameters.append("bdsk.origin")
+        if arg.birth_death == "constant":
+            names = ("lambda", "mu", "psi", "rho", "origin")
+        else:
+            names = ("R", "delta", "rho", "origin")
+        parameters.extend(f"{arg.birth_death}.{name}" for name in names)
 
     if arg.model == 'SRD06':
         for tag in ('12', '3'):
